@@ -226,7 +226,8 @@ def tlc_mc(module, cfg, wd, workers=4, timeout=900, coverage=True, constants=Non
     res = {"out": out, "wall": time.time() - t0, "rc": p.returncode,
            "states": int(m.group(1)) if m else 0, "distinct": int(m.group(2)) if m else 0,
            "ok": "Model checking completed. No error has been found." in out}
-    res["edges"] = [json.loads(json.loads(x)) for x in re.findall(r'<<"EDGE", ("(?:[^"\\]|\\.)*")>>', out)]
+    # TLC wraps long tuples over several lines ("<< "EDGE",\n   "..." >>"): allow any whitespace
+    res["edges"] = [json.loads(json.loads(x)) for x in re.findall(r'<<\s*"EDGE",\s*("(?:[^"\\]|\\.)*")\s*>>', out)]
     res["violated"] = re.findall(r"Invariant (\w+) is violated|Action property (\w+) is violated", out)
     shutil.rmtree(os.path.join(d, "meta"), ignore_errors=True)
     return res
@@ -248,7 +249,38 @@ def action_coverage(out):
     return cov
 
 
-VERDICT_RE = re.compile(r'^<<"VERDICT", (.*)>>$', re.M)
+def extract_verdicts(out):
+    """All `<<"VERDICT", ...>>` tuples printed by a trace spec, as the text between the outer brackets with
+    whitespace normalised.  TLC pretty-prints long tuples over several lines, so this scans for the matching `>>`."""
+    res = []
+    for m in re.finditer(r'<<\s*"VERDICT",', out):
+        i = m.start()
+        depth = 0
+        j = i
+        instr = False
+        while j < len(out):
+            c = out[j]
+            if instr:
+                if c == "\\":
+                    j += 1
+                elif c == '"':
+                    instr = False
+            elif c == '"':
+                instr = True
+            elif out.startswith("<<", j):
+                depth += 1
+                j += 1
+            elif out.startswith(">>", j):
+                depth -= 1
+                j += 1
+                if depth == 0:
+                    break
+            j += 1
+        inner = out[i + 2:j - 1]
+        inner = re.sub(r"\s+", " ", inner).strip()
+        inner = re.sub(r'^"VERDICT",\s*', "", inner)
+        res.append(inner)
+    return res
 
 
 def tlc_trace(module, cfg, trace_events, wd, tag, timeout=900, heap="3g"):
@@ -279,7 +311,7 @@ def tlc_trace(module, cfg, trace_events, wd, tag, timeout=900, heap="3g"):
         log(tail)
         raise ToolError(f"trace validation of {tag} did not consume the whole trace (tool/spec error)")
     shutil.rmtree(os.path.join(d, "meta"), ignore_errors=True)
-    return VERDICT_RE.findall(out), out
+    return extract_verdicts(out), out
 
 
 def tlc_trace_parallel(module, cfg, event_chunks, wd, tag, jobs=8, timeout=900):
